@@ -84,7 +84,9 @@ def save(filename, array, compression_level=1, tag='arr'):
                 where='/', name=t, atom=atom,
                 shape=subarr.shape, filters=compression)
 
-            node[:] = subarr
+            # PyTables copies a non-contiguous array only if its strides do
+            # not sum to zero; hand it C-ordered data in every case.
+            node[:] = np.ascontiguousarray(subarr)
 
     return filename
 
@@ -255,7 +257,8 @@ def _convert_from_1d(iis_flat, lengths=None, starts=None):
     second_dimension = [
         iis_flat[num]-starts[first_dimension[num]]
         for num in range(len(iis_flat))]
-    return (np.array(first_dimension), np.array(second_dimension))
+    return (np.array(first_dimension, dtype=int),
+            np.array(second_dimension, dtype=int))
 
 
 def _handle_negative_indices(
@@ -333,29 +336,10 @@ def _convert_from_2d(iis_ragged, lengths=None, starts=None, error_check=True):
 def _slice_to_list(slice_func, length=None):
     """Converts a slice to a list. Requires the length of the array if
        slicing to a negative index or there is no stopping criterion."""
-    start = slice_func.start
-    if start is None:
-        start = 0
-    elif start < 0:
-        if length is None:
-            raise ImproperlyConfigured(
-                'Must supply length of array if slicing to negative indices')
-        start = length+start
-    stop = slice_func.stop
-    if stop is None and length is None:
+    if length is None:
         raise ImproperlyConfigured(
-            'Must supply length of array if stop is None')
-    if stop is None:
-        stop = length
-    elif stop < 0:
-        stop = length+stop
-    step = slice_func.step
-    if step is None:
-        step = 1
-    elif step < 0 and stop is None and start is None:
-        start = copy.copy(stop)
-        stop = -1
-    return range(start, stop, step)
+            'Must supply length of array to expand a slice')
+    return range(*slice_func.indices(length))
 
 
 def partition_list(list_to_partition, partition_lengths):
@@ -440,36 +424,16 @@ def _get_iis_from_slices(first_dimension_iis, second_dimension, lengths):
     """Given the indices of the first dimension, the second dimension
     (as a slice), and the lengths of the ragged dimension, returns the
     2D indices and the new lengths in the ragged dimension."""
-    start = second_dimension.start
-    stop = second_dimension.stop
-    step = second_dimension.step
-    if start is None:
-        start = 0
-    if step is None:
-        step = 1
-    # handle negative slicing
-    if stop is None:
-        stops = lengths
-    elif stop < 0:
-        stops = lengths + stop
-    else:
-        stops = np.zeros(lengths.shape, dtype=int) + stop
-    # if indices go past length, make it go upto length
-    iis_to_flat = np.where(stops > lengths)
-    stops[iis_to_flat] = lengths[iis_to_flat]
-    # iis_2d = np.array(
-    #     [np.arange(start, stops[num], step) for num in first_dimension_iis],
-    #     dtype='O')
     iis_2d = []
     iis_2d_lengths = []
     for num in first_dimension_iis:
-        splits_inds = np.arange(start, stops[num], step)
+        # per-row python slice semantics (negative bounds/steps, clipping)
+        splits_inds = np.arange(*second_dimension.indices(lengths[num]))
         iis_2d.append(splits_inds)
         iis_2d_lengths.append(len(splits_inds))
     iis_2d_lengths = np.array(iis_2d_lengths, dtype=int)
-    iis_1d = np.concatenate([
-                    list(itertools.repeat(first_dimension_iis[i], iis_2d_lengths[i]))
-                    for i in range(len(iis_2d_lengths))], dtype=int)
+    iis_1d = np.repeat(
+        np.asarray(first_dimension_iis, dtype=int), iis_2d_lengths)
     return (iis_1d, np.concatenate(iis_2d)), iis_2d_lengths
 
 
@@ -506,6 +470,9 @@ class RaggedArray(object):
 
     __slots__ = ('_data', '_array', 'lengths')
 
+    # numpy scalars/arrays as LEFT operand defer to the reflected operators
+    __array_ufunc__ = None
+
     def __init__(self, array, lengths=None, error_checking=True, copy=True):
         # Check that input is proper (array of arrays)
         if error_checking:
@@ -534,7 +501,7 @@ class RaggedArray(object):
                     self._data = np.array([np.array(j) for i in array for j in i], dtype='O')
             else:
                 self._data = np.array(array, copy=copy)
-        elif len(array) > 0:
+        else:
             logger.debug("Interpreting array as concatenated array.")
             self._data = np.array(array, copy=copy)
 
@@ -559,7 +526,8 @@ class RaggedArray(object):
         # special case for lengths equivalent
         elif np.all(lengths == lengths[0]):
             try:
-                self._array = self._data.reshape(-1, lengths[0])
+                self._array = self._data.reshape(
+                    (len(lengths), lengths[0]) + self._data.shape[1:])
             except DataInvalid:
                 raise DataInvalid(
                     "Sum of lengths (%s) didn't match data shape (%s)." %
@@ -717,7 +685,7 @@ class RaggedArray(object):
                     iis, lengths=self.lengths, starts=self.starts)
                 # concatenates values if necessary
                 if _is_iterable(value):
-                    if _is_iterable(value[0]):
+                    if len(value) > 0 and _is_iterable(value[0]):
                         value_1d = np.concatenate(value)
                     else:
                         value_1d = value
@@ -732,7 +700,7 @@ class RaggedArray(object):
             iis_1d = _convert_from_2d(
                 iis, lengths=self.lengths, starts=self.starts)
             if _is_iterable(value):
-                if _is_iterable(value[0]):
+                if len(value) > 0 and _is_iterable(value[0]):
                     value_1d = np.concatenate(value)
                 else:
                     value_1d = value
@@ -834,8 +802,12 @@ class RaggedArray(object):
         if len(self._data) == 0:
             self.__init__(values)
         else:
+            # a single row given as a flat sequence of values
+            if _is_iterable(values) and len(values) > 0 and \
+                    not _is_iterable(values[0]):
+                values = [values]
             concat_values = np.concatenate(values)
-            self._data = np.append(self._data, concat_values)
+            self._data = np.append(self._data, concat_values, axis=0)
             # if the values are a list of arrays, add them each individually
             if _is_iterable(values):
                 if _is_iterable(values[0]):
